@@ -439,10 +439,10 @@ inductive RadixClass (c : Cfg) : Prop
 
 /-- what the syntax layer owes for one `Number` of a non-decimal radix (the analogue of
 `C01Number.number_exact_of_syntax` / `number_truncated_of_syntax`, which are proved for radix 10):
-untruncated — exact words with an exponent inside `±2^27`; truncated, power-of-two radix — `TruncPow2At`; truncated,
+untruncated — exact words (power-of-two radices: with an exponent inside `±2^27`); truncated, power-of-two radix — `TruncPow2At`; truncated,
 generic radix — a mantissa word of at least 55 bits and the value of all the digits in `[w, w+1)·radix^exponent` -/
 def SyntaxFacts (c : Cfg) (n : Number) : Prop :=
-  (n.manyDigits = false → NumberExactAt c n ∧ ExpInRange n.exponent) ∧
+  (n.manyDigits = false → NumberExactAt c n ∧ (IsPow2 c.mantissaRadix → ExpInRange n.exponent)) ∧
   (n.manyDigits = true → IsPow2 c.mantissaRadix → TruncPow2At c n) ∧
   (n.manyDigits = true → GenericClass c → n.mantissa < 2 ^ 64 ∧ 2 ^ 55 ≤ n.mantissa ∧
     TrueValue c.mantissaRadix (numOf n) (litFrac c.mantissaRadix c.exponentBase (numberLit c n)).1
@@ -471,7 +471,7 @@ theorem numberToFloat_radix (slow : SlowRadix) {F : FTy} (hF : IsLemireFloat F) 
         rcases hr with h | h | h | h | h <;> rw [h] <;> omega
       have hb2 : 2 ≤ c.exponentBase := by
         rcases hb with h | h | h | h | h <;> rw [h] <;> omega
-      rw [pipeline_binary slow hF c hp hr hb n hmany hx.1 he hx.2.2]
+      rw [pipeline_binary slow hF c hp hr hb n hmany hx.1 (he hr) hx.2.2]
       rw [(spec_forms hF c hr2.1 hr2.2 hb2 n hmany hx.2.2).2]
     · obtain ⟨_, _, h2, h36⟩ := generic_not_pow2 G.mem
       rw [numberToFloat_generic_exact hF slow c G n hmany hx (hslow G)]
